@@ -372,6 +372,24 @@ func (e *Ev) subField(s VSub, field string, n ast.Node) Val {
 	return e.fx.readField(e.st, s.Ref, s.Elem, path, ft, e.contract)
 }
 
+// refTermsOf lists the reference terms held directly in a value (references, heap maps and the
+// fields of by-value structs).
+func refTermsOf(v Val) []Term {
+	switch r := v.(type) {
+	case VRef:
+		return []Term{r.T}
+	case VMapRef:
+		return []Term{r.T}
+	case VStruct:
+		var out []Term
+		for _, n := range r.Names {
+			out = append(out, refTermsOf(r.F[n])...)
+		}
+		return out
+	}
+	return nil
+}
+
 // ---------------------------------------------------------------------------
 // maps
 
@@ -1012,6 +1030,16 @@ func (x *Exec) havocHeapLoop(ls *loopSpec, head *State) {
 			switch s := n.(type) {
 			case *ast.CompositeLit:
 				allocs = true
+				if tv, ok := x.info.Types[s]; ok {
+					if n, ok := tv.Type.(*types.Named); ok {
+						if _, ok := n.Underlying().(*types.Struct); ok {
+							written["^"+qualifiedElem(n)+"."] = true
+						}
+					}
+					if _, ok := tv.Type.Underlying().(*types.Map); ok {
+						written["map"] = true
+					}
+				}
 			case *ast.AssignStmt:
 				for _, l := range s.Lhs {
 					if sel, ok := unparen(l).(*ast.SelectorExpr); ok {
@@ -1024,6 +1052,7 @@ func (x *Exec) havocHeapLoop(ls *loopSpec, head *State) {
 			case *ast.CallExpr:
 				if id, ok := unparen(s.Fun).(*ast.Ident); ok && (id.Name == "make" || id.Name == "new") {
 					allocs = true
+					written["map"] = true
 				}
 				if fn := calleeOf(s, x.info); fn != nil {
 					if con := fx.prog.spec.Contracts[funcKey(fn)]; con != nil {
@@ -1052,6 +1081,9 @@ func (x *Exec) havocHeapLoop(ls *loopSpec, head *State) {
 				hit = true
 			}
 			if w == "map" && strings.HasPrefix(key, "map[") {
+				hit = true
+			}
+			if strings.HasPrefix(w, "^") && strings.HasPrefix(key, w[1:]) {
 				hit = true
 			}
 		}
